@@ -250,6 +250,36 @@ impl<'tcx> Cx<'tcx> {
             return Some(format!("{{\"int\":\"{}\",\"bits\":{}}}", read(off, size), if ty.is_bool() { 1 } else { size * 8 }));
         }
         match ty.kind() {
+            ty::Adt(def, gargs) if def.is_enum() && !def.variants().iter().all(|v| v.fields.is_empty()) => {
+                // a data-carrying enum (e.g. a table of Option<u16>) with a directly encoded tag: variant + payload fields
+                if let rustc_abi::Variants::Multiple { tag, tag_encoding: rustc_abi::TagEncoding::Direct, tag_field, variants } = &layout.variants {
+                    let tag_off = off + layout.fields.offset(usize::from(*tag_field)).bytes() as usize;
+                    let tag_size = tag.size(&tcx).bytes() as usize;
+                    if tag_size == 0 || tag_size > 16 {
+                        return None;
+                    }
+                    let tv = read(tag_off, tag_size);
+                    let mask: u128 = if tag_size >= 16 { u128::MAX } else { (1u128 << (8 * tag_size)) - 1 };
+                    for (vidx, d) in def.discriminants(tcx) {
+                        if (d.val & mask) == tv {
+                            let vl = &variants[vidx];
+                            let mut parts = Vec::new();
+                            for (i, fd) in def.variant(vidx).fields.iter().enumerate() {
+                                let fty = fd.ty(tcx, gargs);
+                                let foff = off + vl.fields.offset(i).bytes() as usize;
+                                parts.push(self.mem_value_json(a, foff, fty, depth + 1)?);
+                            }
+                            return Some(format!(
+                                "{{\"variant\":{},\"vname\":{},\"payload\":[{}]}}",
+                                vidx.as_usize(),
+                                esc(def.variant(vidx).name.as_str()),
+                                parts.join(",")
+                            ));
+                        }
+                    }
+                }
+                None
+            }
             ty::Adt(def, gargs) if def.is_enum() => {
                 if !def.variants().iter().all(|v| v.fields.is_empty()) || size == 0 || size > 16 {
                     return None;
